@@ -354,7 +354,7 @@ impl Check for C05 {
         "C05"
     }
     fn plan(&self, tier: Tier) -> Plan {
-        Plan::new(tier.pick(12_000, 600_000), tier.pick(30.0, 420.0))
+        Plan::new(tier.pick(120_000, 12_000_000), tier.pick(30.0, 360.0))
     }
     fn selftest(&self) -> Result<(), String> {
         sha::selftest()
